@@ -218,6 +218,24 @@ CHECKS["C14"] = {
     "outside": "sequences of ticks are covered inductively only through the per-tick obligations (discard-only-with-cause, retry-only-when-due, per-tick progress); several entries per tick (the loop body does not couple entries except through the shared channels, whose capacity is not exhausted by one entry); the Discord notifier (nil); real timers",
     "assumptions": CHECKS["C13"]["assumptions"] + ["clock readings carry monotonic readings as real time.Now() values do, so Sub/Since are the stdlib's 64-bit monotonic subtraction"],
 }
+CHECKS["C03"] = {
+    "runs": [
+        {"pkg": "./pkg/p2p", "entry": "VerifC03_Heartbeat", "reach": ["accepted", "rejected"], "shards": {"quick": ["n=0,1", "n=2;L=0,1,22", "n=2;L=23,24", "n=2;L=25,40"]}},
+        {"pkg": "./pkg/p2p", "entry": "VerifC03_ObservationRequest", "reach": ["accepted", "rejected"], "shards": {"quick": ["n=0,1", "n=2;L=0,1,5", "n=2;L=6,7", "n=2;L=8,40"]}},
+        {"pkg": "./pkg/p2p", "entry": "VerifC03_HeartbeatCap", "reach": ["stored", "refused"]},
+        {"pkg": "./pkg/processor", "entry": "VerifC03_Observation", "reach": ["changed", "unchanged"], "opts": _PROC_OPTS,
+         "shards": {"quick": ["m.plen=1;tester=%s;local=%d" % (t, l) for t in ("0", "1", "2", "3", "9") for l in (0, 1, 2)],
+                    "thorough": ["tester=%s;local=%d" % (t, l) for t in ("0", "1", "2", "3", "9") for l in (0, 1, 2)]}},
+    ],
+    "bounds": {"quick": {"heartbeat / request": "guardian set of 0..2 keys; body lengths around the floor (heartbeat 0,1,22,23,24,25,40; request 0,1,5,6,7,8,40) with fully symbolic bytes; claimed address = a member's, an outsider's, 20 arbitrary bytes, none, or 21 bytes; signature by a member or outsider over the correctly prefixed digest, by a member over the bare body hash, over the other message type's prefixed digest, over keccak(bare hash) (the shape of a VAA signature), or 64/65/66 arbitrary bytes",
+                         "heartbeat table": "0..16 existing node entries for one guardian, then a heartbeat from a known or a new peer",
+                         "observation": "sets A={0,1}, B={1,2}; optional earlier gossip observation; node never observed / observed under A / observed after the change; optional change to B; test observation honest by key 0..3 (optionally under another key's address) or 117 arbitrary bytes"},
+               "thorough": {"observation": "message payload 0..2 bytes"}},
+    "outside": "libp2p transport and pubsub validation; the operator opt-out disableHeartbeatVerify=true; proto decoding of the heartbeat body (opaque model: may fail or yield any message); guardian sets larger than 2; Keccak collisions (collision-freeness assumed for the cross-domain claims)",
+    "assumptions": ["ecrecover/keccak model (DESIGN 4.1); AssumeCollisionFree: different pre-images (or lengths) hashed on a path have different digests",
+                    "pkg/p2p is loaded through an overlay in which only the body of p2p.Run is replaced by panic(\"stripped\") (quic-go does not build with the installed Go); processSignedHeartbeat / processSignedObservationRequest are byte-identical",
+                    "proto.Unmarshal of attacker bytes: nondeterministic success/failure"] + CHECKS["C01"]["assumptions"][1:],
+}
 
 # generated harness parts per (module, package): regenerated from /repo on every run for every check that loads the package
 GENERATORS = {("node", "./pkg/vaa"): [_gen_c04], ("node", "./pkg/processor"): [_gen_c07]}
